@@ -34,7 +34,8 @@ def palette_bound(F, S):
                 continue
             inst = "%s::ReadPalette#resize:%s" % (B, fmt_term(rp.term(nd["args"][0])))
             req = "the palette is sized only after the header rules (used colours <= 2^depth, indexed depth) have been enforced"
-            if ("ev", "called", IH + "::Validate") in site and ("ev", "called", B + "::VerifyIndexedImageForSerialization") in site:
+            from ..rules_valid import validated
+            if validated(F, rp, site, IH + "::Validate") and validated(F, rp, site, B + "::VerifyIndexedImageForSerialization"):
                 out.append(ok("R-ORDER", inst, rp.loc(nd["id"]), rp.qn, req, "ImageHeader::Validate and the depth check dominate the allocation"))
             else:
                 out.append(bad("R-ORDER", inst, rp.loc(nd["id"]), rp.qn, req, "allocation is not dominated by the header validation"))
@@ -118,8 +119,8 @@ def check(F, run, tier):
     run.add(ic.write_pixels_shape(F, S))
     run.add(ic.pixel_size_check_width(F, S))
     wp = F.fn(B + "::WritePixels", nparams=5)
-    pitch_t = ("call", IH + "::CalculatePitch", None, (P(wp, 4), P(wp, 2)))
-    bytes_t = ("call", IH + "::CalcPixelByteWidth", None, (P(wp, 4), P(wp, 2)))
+    pitch_t = F.call_value(IH + "::CalculatePitch", None, (P(wp, 4), P(wp, 2)))
+    bytes_t = F.call_value(IH + "::CalcPixelByteWidth", None, (P(wp, 4), P(wp, 2)))
     run.add(ic.unsigned_subtractions(F, S, wp, lemmas=((pitch_t, bytes_t),)))
     run.add(ic.invert_scan_lines(F, S))
     wh_, _ = F.fn_or_host(B + "::WriteHeaders", 5, B + "::WriteIndexed", 1, host_pred=lambda f: "Writer &)" in f.key)
